@@ -159,8 +159,7 @@ pub fn build(b: Build) -> Svc {
         pstore.seed(rid, *scope).unwrap();
     }
     let policies = policy::Config::new(SeedingPolicy::default(), pstore);
-    let db = Database::memory()
-        .unwrap()
+    let db = pooled_db()
         .init(&id, config.features(), &config.alias, &UserAgent::default(), now.into(), config.external_addresses.iter())
         .unwrap()
         .into();
@@ -169,6 +168,38 @@ pub fn build(b: Build) -> Svc {
     let mut svc = Service::new(config, db, b.storage, policies, signer, rng, ann, Emitter::default());
     svc.initialize(now).unwrap();
     svc
+}
+
+thread_local! {
+    static DB_POOL: std::cell::RefCell<Vec<Database>> = const { std::cell::RefCell::new(Vec::new()) };
+}
+
+/// An empty, migrated in-memory node database. Opening and migrating one costs more than
+/// everything else in building a `Service`, and replay-from-scratch builds one per transition, so
+/// each thread recycles the databases of services it has already dropped (all rows deleted; the
+/// engine's replay-divergence check would notice any state leaking through).
+fn pooled_db() -> Database {
+    DB_POOL.with(|pool| {
+        let mut pool = pool.borrow_mut();
+        if let Some(d) = pool.iter().find(|d| std::sync::Arc::strong_count(&d.db) == 1) {
+            let d = d.clone();
+            let tables: Vec<String> = {
+                let mut names = vec![];
+                let mut stmt = d.db.prepare("SELECT name FROM sqlite_master WHERE type = 'table' AND name NOT LIKE 'sqlite_%'").expect("sqlite_master");
+                while let Ok(sqlite::State::Row) = stmt.next() {
+                    names.push(stmt.read::<String, _>(0).expect("table name"));
+                }
+                names
+            };
+            for t in tables {
+                d.db.execute(format!("DELETE FROM \"{t}\"")).expect("clear table");
+            }
+            return d;
+        }
+        let d = Database::memory().expect("memory db");
+        pool.push(d.clone());
+        d
+    })
 }
 
 /// Drain the outbox completely.
